@@ -272,7 +272,9 @@ impl Prop for C09 {
             for (wi, &w) in widths.iter().enumerate() {
                 let (fst, fh, _) = &fr[wi];
                 if fst != "ok" {
-                    sink.count("frozen_not_ok", 1);
+                    // "for every source text that the pinned release formats without error": parse errors,
+                    // errors, panics, and panics the release contained while formatting a macro are not references
+                    sink.count(if fst == "ok-contained-panic" { "frozen_contained_panic" } else { "frozen_not_ok" }, 1);
                     continue;
                 }
                 let (cst, ch, ctext) = &cur[k][wi];
